@@ -416,6 +416,12 @@ def r5(R5, cfg, F):
     sw = th.primary_switch(cm[0].dest['l'])
     err = th.variant_edge(sw, 1) if sw is not None else None
     ok = err is not None and ev[0].bb not in th.reachable([ready[0].bb], removed_edges=[(sw, err)])
+    if ok:
+        # ... and again before every *further* event: from a handled event the next events.try_recv is reached only
+        # through an emptied cache queue (an AddAsset sent while an event was being handled is seen before the next event)
+        esw = th.primary_switch(ev[0].dest['l'])
+        okev = th.variant_edge(esw, 0) if esw is not None else None
+        ok = okev is not None and ev[0].bb not in th.reachable([okev], removed_edges=[(sw, err)])
     R5.check(ok, cfg, th.path, 'events-only-after-cache-queue-is-empty', 'events.try_recv must be reachable only through the Err (empty/disconnected) edge of cache_msg.try_recv, so that AddAsset messages are applied before the events that concern them', ev[0].loc())
 
 
